@@ -13,6 +13,7 @@ pub mod oracle5;
 pub mod oracle6;
 pub mod oracle7;
 pub mod oracle8;
+pub mod oracle9;
 pub mod plan;
 pub mod providers;
 pub mod run;
